@@ -442,6 +442,8 @@ def normalize_contraction_commutative_canonical_order(
     Contraction, AssociativeOp, ops.AddOp, frozenset, GaussianMixture, GROUND_TERMS
 )
 def normalize_contraction_commute_joint(red_op, bin_op, reduced_vars, mixture, other):
+    if red_op is not ops.null and mixture.red_op not in (ops.null, red_op):
+        return None  # the two reductions differ and cannot be merged
     return Contraction(
         mixture.red_op if red_op is ops.null else red_op,
         bin_op,
@@ -454,6 +456,8 @@ def normalize_contraction_commute_joint(red_op, bin_op, reduced_vars, mixture, o
     Contraction, AssociativeOp, ops.AddOp, frozenset, GROUND_TERMS, GaussianMixture
 )
 def normalize_contraction_commute_joint(red_op, bin_op, reduced_vars, other, mixture):
+    if red_op is not ops.null and mixture.red_op not in (ops.null, red_op):
+        return None  # the two reductions differ and cannot be merged
     return Contraction(
         mixture.red_op if red_op is ops.null else red_op,
         bin_op,
